@@ -76,6 +76,38 @@ func (p *linProver) nonneg(f linForm) bool {
 	if p.diffProve(f) {
 		return true
 	}
+	// one fact scaled by a small positive factor (array indexing: elemsize*(len - i - 1) >= 0)
+	for a := range p.facts {
+		g := p.facts[a]
+		for t, cg := range g.m {
+			cf, ok := f.m[t]
+			if !ok {
+				continue
+			}
+			sf, sg := int64(cf), int64(cg)
+			if sg == 0 || sf%sg != 0 {
+				continue
+			}
+			k := sf / sg
+			if k < 2 || k > 1<<20 {
+				continue
+			}
+			h := linForm{m: map[*Term]uint64{}, k: f.k - uint64(k)*g.k}
+			for u, cu := range f.m {
+				h.m[u] = cu
+			}
+			for u, cu := range g.m {
+				h.m[u] -= uint64(k) * cu
+				if h.m[u] == 0 {
+					delete(h.m, u)
+				}
+			}
+			if i := p.interval(h.m, h.k); i != nil && i.lo.Sign() >= 0 {
+				return true
+			}
+			break
+		}
+	}
 	if len(p.facts) <= 40 {
 		for a := range p.facts {
 			g := f.minus(p.facts[a])
